@@ -17,7 +17,7 @@ func init() {
 		RealParts:  []string{"Species.adjustFitness / countOffspring, Population.purgeZeroOffspringSpecies / giveBabiesToTheBest / deltaCoding / purgeOrganisms, both epoch executors"},
 		StubParts:  []string{"fitness assignment (seeded landscape with at least one positive value)", "goroutine choice in parallel worlds"},
 		Assumes:    []string{"the age adjustment is constrained to be one uniform positive factor per species, decided by the species history at the start of the epoch: 1 or the age-significance option when the last improvement is more than two generations short of the drop-off age, below half of that when it is two or more generations past it; penalty constants and the exact boundary are not mirrored", "1e-9 relative tolerance; where a cumulative expectation lies within 1e-6 of an integer either rounding is accepted"},
-		ProbeNames: []string{"probe.multi_species_epoch", "probe.options_changed_between_epochs", "probe.makeup_offspring", "probe.delta_coding", "probe.stolen_babies", "probe.zero_quota_species", "probe.stagnant_species_penalised", "probe.long_stagnant_species", "probe.species_scoring_zero", "probe.young_species_boost", "probe.culling_removed_parents"},
+		ProbeNames: []string{"probe.multi_species_epoch", "probe.options_changed_between_epochs", "probe.makeup_offspring", "probe.delta_coding", "probe.stolen_babies", "probe.zero_quota_species", "probe.stagnant_species_penalised", "probe.long_stagnant_species", "probe.species_scoring_zero", "probe.young_species_boost", "probe.culling_removed_parents", "probe.survival_product_whole"},
 	})
 	Register(&Scenario{
 		Prop: "C10", Run: scenarioC10, QuickRuns: 4800, ThoroughRuns: 120000, Level: "exploration",
@@ -166,10 +166,14 @@ func checkQuotas(c *RunCtx, w *World, snap *EpochSnap) {
 		x := w.Opts.SurvivalThresh * float64(n)
 		want := int(math.Floor(x)) + 1
 		alt := want
+		// the product is formed in float64: when it lands a hair below a whole number k the mathematical value may be k
+		// itself, and then k+1 parents are right as well. The other direction does not exist: a product that is a whole
+		// number k, or a hair above it, has floor k in either reading.
 		if fr := x - math.Floor(x); fr > 1-1e-9 {
 			alt = want + 1
-		} else if fr < 1e-9 && x >= 1 {
-			alt = want - 1
+		}
+		if x == math.Floor(x) && x >= 1 && int(x) < n {
+			c.Count("probe.survival_product_whole")
 		}
 		if want > n {
 			want = n
